@@ -192,3 +192,4 @@ def check_dispatch(repo, res, facts):
     api_model.apply(res, [r for r in api_model.assist_model(repo) if 'attribute branch' in r[1]], {'source': 'C06-R3'},
                     'supp/assistant.py', 0)
     api_model.apply(res, api_model.location_model(repo), {'asks': 'C06-R3', 'import': 'C06-R3'}, 'supp/assistant.py', 0)
+    api_model.apply(res, api_model.descriptor_model(repo), {'descriptor': 'C06-R3'}, 'supp/scope.py', 0)
